@@ -206,6 +206,9 @@ def run_task(task):
     kind = task["kind"]
     if kind == "catalogue":
         return run_catalogue()
+    if "cls" in task and not cat.exists(cat.TABLE[task["cls"]]):
+        return {"evals": 0, "nontrivial": [], "violations": [], "states": 0, "transitions": 0, "sample": None,
+                "counters": {"tasks_skipped_class_absent_from_tree": 1}, "digest": Digest().add("absent").hex()}
     if kind == "geometry":
         return run_geometry(task)
     if kind == "restriction":
